@@ -10,7 +10,7 @@ from . import zygote
 from .faults import IOFaults, Interrupt
 from .gen import render as render_script
 
-ENV_OPS = ("write", "unlink", "chdir", "mkdir")
+ENV_OPS = ("write", "unlink", "chdir", "mkdir", "symlink")
 LOAD_OPS = ("load", "loads")
 
 
@@ -159,6 +159,15 @@ class Executor:
         if op == "mkdir":
             os.makedirs(os.path.join(self.root, st["path"]), exist_ok=True)
             return ev
+        if op == "symlink":
+            lp = os.path.join(self.root, st["path"])
+            tp = os.path.join(self.root, st["target"])
+            os.makedirs(tp, exist_ok=True)
+            os.makedirs(os.path.dirname(lp), exist_ok=True)
+            if os.path.islink(lp):
+                os.unlink(lp)
+            os.symlink(tp, lp)
+            return ev
         if op == "unlink":
             try:
                 os.unlink(os.path.join(self.root, st["path"]))
@@ -210,7 +219,14 @@ class Executor:
             call = self.bb.loads
         else:
             absp = os.path.join(self.root, st["path"])
-            if st.get("style", "abs") == "rel":
+            if st.get("name"):
+                # an explicit, NOT normalised file name (it may go through symbolic links)
+                if st.get("style", "abs") == "rel":
+                    up = os.path.relpath(self.root, os.getcwd())
+                    arg = st["name"] if up == "." else up + "/" + st["name"]
+                else:
+                    arg = self.root + "/" + st["name"]
+            elif st.get("style", "abs") == "rel":
                 arg = os.path.relpath(absp, os.getcwd())
                 if st.get("dot"):
                     arg = os.path.join(".", arg)
